@@ -119,6 +119,11 @@ func (w *World) CG() *CallGraph {
 					for _, f := range funcValues(a) {
 						add(fn, f, EdgePass, ins)
 						if isOnce {
+							// once.Do(obj.method): the value is a bound-method wrapper; the initialiser is the method itself
+							if real := w.unwrapBound(f); real != f {
+								add(fn, real, EdgePass, ins)
+								f = real
+							}
 							cg.OnceClosures[f] = c
 						}
 					}
